@@ -60,7 +60,7 @@ def gen_items(vseed, tier, n):
                 files = isc["versions"][rng.randrange(len(isc["versions"]))]
                 inputs = isc["probes"][:3]
             items.append({"family": isc["family"], "files": files, "tables": tables,
-                          "inputs": inputs})
+                          "inputs": inputs, "pge": isc.get("pge")})
     return items[:n]
 
 
